@@ -57,6 +57,17 @@ def csMonitor (env : CsEnv) (cfg : CsCfg) (req : CsReq) (obs : Resp) : Option St
     some s!"cs: unverified request answered {obs.status}, not an error status"
   else none
 
+/-- "covers exactly the request's … body digest": when the handler runs on an unencrypted request, the body it reads
+is the body whose digest was signed — all the bytes the request carries, whatever its framing (declared length,
+unknown length / chunked, no body). For `type = 1` the body is ciphertext; that is `cryptMonitor`'s business. -/
+def csBodyMonitor (env : CsEnv) (cfg : CsCfg) (req : CsReq) (obs : Resp) : Option String :=
+  if cfg.strict ∧ obs.ran ∧ csCovers env cfg req then
+    match parseContentSecurity env req with
+    | .ok h =>
+      if h.contentType ≠ 1 ∧ obs.seen ≠ req.body then some "cs: the handler read a body other than the signed one" else none
+    | .error _ => none
+  else none
+
 /-! ## encrypted bodies -/
 
 /-- the client encrypted payload `p` properly: `raw = base64 (E (pad p))` for a whole, non-empty body -/
